@@ -573,6 +573,19 @@ func isProtoInt(v sVal) (*pt, bool) {
 
 // binop on protocol integers
 func (d *protoDom) binop(st *sState, x *ssa.BinOp, a, b sVal) (sVal, bool) {
+	if x.Op == token.OR {
+		// bytes of a buffer folded into an accumulator
+		conv := func(v sVal) sVal {
+			if bc, ok := v.(byteCell); ok {
+				if bc.src.op == "lsb" && bc.idx == 0 {
+					return pInt{&pt{op: "trunc", args: []*pt{bc.src.args[0]}, k: 8}}
+				}
+				return pInt{byteTerm(bc.src, bc.idx)}
+			}
+			return v
+		}
+		a, b = conv(a), conv(b)
+	}
 	ta, oka := isProtoInt(a)
 	tb, okb := isProtoInt(b)
 	_, pa := a.(pInt)
